@@ -58,6 +58,10 @@ pub enum Simple {
     Exit(Option<u8>),
     SetErrexit(bool),
     Fail(Fail),
+    /// assignment-only command `v0=... v1=...`: each value is plain text (None) or `$(st N)`
+    Assigns(Vec<Option<u8>>),
+    /// `astN`, an alias for `st N` defined on an earlier line
+    AliasSt(u8),
 }
 
 #[derive(Clone, Debug, PartialEq, Eq, Hash, Serialize, Deserialize)]
@@ -147,6 +151,15 @@ fn san(n: &mut Node, c: &mut SanCtx, nl: &mut u16, nm: &mut u16, allow_fail: boo
                 Simple::Cnt(id, limit) => {
                     *id %= 4;
                     *limit %= 4;
+                }
+                Simple::Assigns(vals) => {
+                    if vals.is_empty() {
+                        vals.push(None);
+                    }
+                    vals.truncate(3);
+                    for v in vals.iter_mut().flatten() {
+                        *v %= 4;
+                    }
                 }
                 Simple::Fail(f) => {
                     if !allow_fail {
@@ -348,6 +361,18 @@ fn r_simple(s: &Simple, sf: &mut Surface, out: &mut String) {
         Simple::Return(Some(n)) => out.push_str(&format!("return{sp}{n}")),
         Simple::Exit(None) => out.push_str("exit"),
         Simple::Exit(Some(n)) => out.push_str(&format!("exit{sp}{n}")),
+        Simple::Assigns(vals) => {
+            for (i, v) in vals.iter().enumerate() {
+                if i > 0 {
+                    out.push_str(sp);
+                }
+                match v {
+                    None => out.push_str(&format!("v{i}=plain")),
+                    Some(n) => out.push_str(&format!("v{i}=$(st {n})")),
+                }
+            }
+        }
+        Simple::AliasSt(n) => out.push_str(&format!("ast{}", n % 4)),
         Simple::SetErrexit(true) => out.push_str(if sf.next(2) == 0 { "set -e" } else { "set -o errexit" }),
         Simple::SetErrexit(false) => out.push_str(if sf.next(2) == 0 { "set +e" } else { "set +o errexit" }),
         Simple::Fail(f) => match f {
@@ -557,9 +582,13 @@ pub fn r_list(n: &Node, sf: &mut Surface, out: &mut String) {
     }
 }
 
+/// Prelude for running a program with the real `yash3` main (no probe built-ins): the probes are
+/// shell functions printing `M <id> <$? on entry>` through an external utility.
+pub const REAL_PRELUDE: &str = "mark() { /bin/echo \"M $1 $?\" >&2; }\nst() { return $1; }\nmb() { /bin/echo \"M 9005 $?\" >&2; return 5; }\ncnt() { eval \"_v=\\${_c_$1:-0}\"; eval \"_c_$1=\\$(( _v < $2 ? _v + 1 : _v ))\"; return $(( _v < $2 ? 0 : 1 )); }\n";
+
 pub fn render(p: &Program, surface: u32) -> String {
     let mut out = String::new();
-    out.push_str("readonly ro=0\n");
+    out.push_str("readonly ro=0\nalias ast0='st 0' ast1='st 1' ast2='st 2' ast3='st 3'\n");
     if p.exit_trap {
         out.push_str(&format!("trap 'mark {EXIT_MARK}' EXIT\n"));
     }
@@ -619,6 +648,9 @@ struct Proc {
 
 pub struct Model<'a> {
     prog: &'a Program,
+    /// every probe execution of every process in execution order (meaningful only when the
+    /// program has no multi-command pipeline, i.e. no concurrency)
+    pub global: Trace,
     pub children: Vec<Trace>,
     pub classes: Vec<&'static str>,
     /// abort flag: the model met something it does not define
@@ -626,6 +658,7 @@ pub struct Model<'a> {
 }
 
 pub struct Expected {
+    pub global: Trace,
     pub main: Trace,
     pub children: Vec<Trace>,
     pub status: Sym,
@@ -676,6 +709,7 @@ impl<'a> Model<'a> {
         match s {
             Simple::Mark(id) => {
                 p.trace.push((*id, p.status));
+                self.global.push((*id, p.status));
                 p.status = Sym::Known(0);
             }
             Simple::St(n) => p.status = Sym::Known(*n as i32),
@@ -717,6 +751,7 @@ impl<'a> Model<'a> {
                     }
                 } else {
                     p.trace.push((MB_MARK, p.status));
+                    self.global.push((MB_MARK, p.status));
                     p.status = Sym::Known(5);
                 }
             }
@@ -763,6 +798,20 @@ impl<'a> Model<'a> {
             Simple::SetErrexit(on) => {
                 p.errexit = *on;
                 p.status = Sym::Known(0);
+            }
+            Simple::Assigns(vals) => {
+                // XCU 2.9.1: no command name => status of the last command substitution performed,
+                // or zero if there was none
+                self.class("assignment-only-command");
+                p.status = Sym::Known(vals.iter().rev().find_map(|v| *v).map_or(0, |n| n as i32));
+                for v in vals.iter().flatten() {
+                    let _ = v;
+                    self.children.push(vec![]);
+                }
+            }
+            Simple::AliasSt(n) => {
+                self.class("alias-in-command-position");
+                p.status = Sym::Known((*n % 4) as i32);
             }
             Simple::Fail(f) => match f {
                 Fail::RedirRegular(_) | Fail::RedirCompound(_) => {
@@ -1010,7 +1059,7 @@ impl<'a> Model<'a> {
 }
 
 pub fn expected(prog: &Program) -> Expected {
-    let mut m = Model { prog, children: vec![], classes: vec![], unspecified: None };
+    let mut m = Model { prog, global: vec![], children: vec![], classes: vec![], unspecified: None };
     let mut p = Proc {
         status: Sym::Known(0),
         funcs: BTreeMap::new(),
@@ -1023,6 +1072,7 @@ pub fn expected(prog: &Program) -> Expected {
     let _ = m.exec(&mut p, &prog.body);
     if prog.exit_trap {
         p.trace.push((EXIT_MARK, p.status));
+        m.global.push((EXIT_MARK, p.status));
     }
-    Expected { main: p.trace, children: m.children, status: p.status, classes: m.classes, unspecified: m.unspecified, steps: p.steps }
+    Expected { global: m.global, main: p.trace, children: m.children, status: p.status, classes: m.classes, unspecified: m.unspecified, steps: p.steps }
 }
